@@ -129,11 +129,18 @@ Definition spec_of (j : json) (e : cexpr) : json :=
     | None => r
     end.
 
+(* exactness of the module evaluator on e, or on the operands of a top-level comparison (const_assert) *)
+Definition exact_top (e : cexpr) : bool :=
+  match e, eval_constant_int e with
+  | CBin _ a b, None => eval_exact a && eval_exact b
+  | _, _ => eval_exact e
+  end.
+
 Definition entry_with (F : float_ops) (j : json) : json :=
   match field_str "fn" j, match field "e" j with Some e => expr_of_json 64 e | None => None end with
   | Some fn, Some e =>
     match entry_dispatch F fn j e with
-    | JObj fs => JObj (fs ++ [("s", spec_of j e); ("rt", json_of_wres (rt_eval e)); ("exact", JBool (eval_exact e))])
+    | JObj fs => JObj (fs ++ [("s", spec_of j e); ("rt", json_of_wres (rt_eval e)); ("exact", JBool (exact_top e))])
     | a => a
     end
   | _, _ => JObj [("err", JStr "request")]
